@@ -179,6 +179,8 @@ Proof.
   apply enc_cut_spec in Hcut. destruct Hcut as [Hp Hd].
   assert (lenN (g_payload m) = lenN done + lenN p) as Hlp by (rewrite Hpay; apply lenN_app).
   unfold compose_body.
+  assert ((rv_grow_received rv_fixed && (h_len (s_hdr s2) <? s_len s2)) = false) as ->
+    by (cbn [rv_grow_received rv_fixed andb]; apply N.ltb_ge; lia).
   assert (needed_size rv_fixed (cs_chunk rd) s2 = lenN data) as ->.
   { unfold needed_size. cbn [rv_needed_remaining rv_fixed negb andb]. rewrite Hlen, Hsl. unfold u32. lia. }
   rewrite Hrb, read_body_app. cbn [s_len s_hdr s_abs s_ts]. rewrite Hsl, Hlen.
